@@ -48,18 +48,18 @@ Definition voutcome (o : outcome) : V :=
 Definition vworld (w : world mstate) : V :=
   VL [vtext (pend (es w)); vtext (buf (es w)); vnat (length (pipe w)); vnat (length (got w)); vnat (ints w)].
 
-Fixpoint run_cmds (prompt cont : text) (w : world mstate) (cmds : list (text * list (list nat))) : list V :=
+Fixpoint run_cmds (prompt cont : text) (w : world mstate) (cmds : list (bool * text * list (list nat))) : list V :=
   match cmds with
   | [] => [vlist vtext (got w)]
-  | (c, cuts) :: r =>
-      match run_command mstate (mstep prompt cont) mint prompt cont false w c cuts with
+  | (async, c, cuts) :: r =>
+      match run_command mstate (mstep prompt cont) mint prompt cont async w c cuts with
       | (o, w') => VL [voutcome o; vworld w'] :: run_cmds prompt cont w' r
       end
   end.
 
 (** a case: prompts, banner, original prompt, prompt-change line, optional extra initialisation command, the cuts
     of the constructor's exchanges, and the commands *)
-Definition run_repl (c : text * text * text * text * text * option text * list (list nat) * list (text * list (list nat))) : V :=
+Definition run_repl (c : text * text * text * text * text * option text * list (list nat) * list (bool * text * list (list nat))) : V :=
   match c with (prompt, cont, banner, orig, change, extra, ccuts, cmds) =>
     match construct mstate (mstep prompt cont) mint prompt cont (0, []) banner orig change extra ccuts with
     | (o, w) => VL (VL [vopt voutcome o; vworld w] ::
@@ -73,7 +73,7 @@ Definition run_repl (c : text * text * text * text * text * option text * list (
 Definition run_cmdlines (c : text) : V := vlist vtext (cmdlines c).
 
 (** the observation the harness makes: the constructor's result is visible only as success or the exception *)
-Definition run_repl_obs (c : bool * text * text * text * text * text * option text * list (list nat) * list (text * list (list nat))) : V :=
+Definition run_repl_obs (c : bool * text * text * text * text * text * option text * list (list nat) * list (bool * text * list (list nat))) : V :=
   match c with (echo, prompt, cont, banner, orig, change, extra, ccuts, cmds) =>
     match construct mstate (mstep prompt cont) mint prompt cont (0, []) banner orig change extra ccuts with
     | (o, w) => match o with
